@@ -9,7 +9,7 @@ import copy
 from hypothesis import strategies as st
 
 from pbt.runner import Check
-from pbt.gens import netgen, spectra
+from pbt.gens import netgen, spectra, bandnets
 
 ELEMENT_CLASSES = ('Transceiver', 'Roadm', 'Fused', 'Fiber', 'RamanFiber', 'Edfa', 'Multiband_amplifier')
 
@@ -97,6 +97,33 @@ def path_case(draw, n=(2, 4), raman=False, max_ch=40, multiband=False):
             'sim': {'raman_params': {'flag': bool(raman), 'result_spatial_resolution': 10e3,
                                      'solver_spatial_resolution': 10e3},
                     'nli_params': {'method': nli, 'dispersion_tolerance': 1, 'phase_shift_tolerance': 0.1,
+                                   'computed_channels': None}}}
+
+
+@st.composite
+def band_path_case(draw):
+    """paths through networks whose links carry C+L multiband amplifiers (typed, reduced constituents, auto-designed) or
+    single-band amplifiers of different bands; carriers in both bands"""
+    edges = draw(bandnets.band_edges(same_fmax=draw(st.booleans())))
+    if (edges['Lred'][0] + edges['Lred'][1]) / 2 > 189e12:
+        edges['Lred'][0] = 187.3e12
+    multiband = draw(st.integers(0, 3)) > 0
+    classes = ['CL', 'CL', 'CLred', 'CLauto'] if multiband else ['auto', 'C', 'Cred', 'Cshort']
+    topo, truth = draw(bandnets.band_topology(classes, edges, n=(2, 3), extra_max=1))
+    eq = bandnets.library(edges, 'C', False)
+    src = draw(st.integers(0, truth['n'] - 1))
+    dst = draw(st.integers(0, truth['n'] - 2))
+    if dst >= src:
+        dst += 1
+    c_lo, c_hi = int(edges['C'][0] / 1e6), int(edges['C'][1] / 1e6)
+    comb = draw(spectra.comb(1, 24, f_start=(c_lo, c_lo + 2_000_000), power=(-3.0, 3.0), f_stop=c_hi))
+    if multiband and draw(st.booleans()):
+        l_lo, l_hi = int(edges['L'][0] / 1e6), int(edges['L'][1] / 1e6)
+        comb = comb + draw(spectra.comb(1, 12, f_start=(l_lo, l_lo + 1_000_000), power=(-3.0, 3.0), f_stop=l_hi))
+    return {'eq': eq, 'topo': {'elements': topo['elements'], 'connections': topo['connections']},
+            'truth': {'n': truth['n'], 'links': truth['links']}, 'src': src, 'dst': dst, 'comb': comb,
+            'sim': {'raman_params': {'flag': False, 'result_spatial_resolution': 10e3, 'solver_spatial_resolution': 10e3},
+                    'nli_params': {'method': 'gn_model_analytic', 'dispersion_tolerance': 1, 'phase_shift_tolerance': 0.1,
                                    'computed_channels': None}}}
 
 
@@ -280,6 +307,12 @@ def make_check(prop):
     if prop == 'C01':
         return Check('B-path', path_case(), run_c01, quick=160, thorough=6000,
                      doc='decomposition after every element of a real propagation + receiver figures')
+    if prop == 'C01-multiband':
+        return Check('B-path-multiband', band_path_case(), run_c01, quick=300, thorough=10000,
+                     doc='same through C+L multiband amplifiers and mixed-band links')
+    if prop == 'C02-multiband':
+        return Check('path-monotonic-multiband', band_path_case(), run_c02, quick=300, thorough=10000,
+                     doc='same through C+L multiband amplifiers and mixed-band links')
     if prop == 'C02':
         return Check('path-monotonic', path_case(), run_c02, quick=220, thorough=8000,
                      doc='per-element, per-channel ASE/signal and NLI/signal ratios never decrease; passive unchanged')
